@@ -27,6 +27,7 @@ import XotModel.Lemmas.FinvTrav
 import XotModel.Lemmas.ArenaExamples
 import XotModel.Lemmas.ArenaSim
 import XotModel.Lemmas.ArenaRemoveRoot
+import XotModel.Lemmas.FpxRefineMain
 
 namespace XotModel.Props
 open XotModel
@@ -605,6 +606,140 @@ example : ((pfxForest.createMissingPrefixes pfxEnv 0).1.get? 0).map (fun t => t.
     (pfxForest.createMissingPrefixes pfxEnv 1).2.2 = .err .notElement := by decide +kernel
 example : (pfxForest.deduplicateNamespaces pfxEnv 0).1.allHandles = [0, 1, 2] ∧
     (pfxForest.deduplicateNamespaces pfxEnv 0).2 = .ok := by decide +kernel
+
+/-! ### `create_missing_prefixes`: the forest model refines the tree model of C10
+
+The forest model (`Forest.createMissingPrefixes`, Model/FatomSpec2.lean) computes its insertions from
+the erased root tree and runs them through handles, re-erasing after every top-level element; the
+tree model (`createMissingPrefixes`, Model/Repair.lean, the subject of every `C10_repair_*` theorem in
+Props/C10) rebuilds the subtree in one pass and threads the tree through the document loop.  The
+theorems below (Lemmas/FpxRefine*.lean) say the two agree on every forest satisfying the invariant:
+same interning tables, same outcome, and the erased root tree of the forest model IS the tree model's
+result — so the C10 theorems hold of forest histories (`C10_forest_repair_writable`).  They live here
+(not in Props/C10) because they are about handles staying meaningful: the handles of existing nodes
+are unchanged, every other parentless tree is untouched.
+
+`r` is the parentless tree containing `node` and `path` the path of `node` in it; both exist for every
+live handle (`Forest.rootOf?_of_live`). -/
+
+/-- ELEMENT.  `create_missing_prefixes(node)` on an element of a forest with the invariant answers
+    `Ok`; the tree model on `(r.erase, path)` answers `Ok` with the SAME interning tables and the erasure
+    of the new root tree `r'`; `r'` is the root tree of `node` afterwards, `node` is found at the same
+    path; every other parentless tree is untouched; the handles of `r'` that existed before the call
+    are exactly the handles of `r`, in the same document order (new namespace nodes get fresh
+    handles); the path of every node that is not strictly below `node` is unchanged. -/
+theorem C10_forest_repair_refines_tree (f : Forest) (hi : f.Inv) (env : Env) (node : Nat)
+    (he : f.isElement node = true) (r : HTree) (hr : f.rootOf? node = some r) (path : Path)
+    (hp : r.pathOf node = some path) :
+    ∃ r' : HTree,
+      (f.createMissingPrefixes env node).2.2 = .ok ∧
+      createMissingPrefixes env r.erase path = .ok ((f.createMissingPrefixes env node).2.1, r'.erase) ∧
+      (f.createMissingPrefixes env node).1.rootOf? node = some r' ∧
+      r'.pathOf node = some path ∧
+      (f.createMissingPrefixes env node).1.roots =
+        f.roots.map (fun y => if (y.pathOf node).isSome then r' else y) ∧
+      r'.handles.filter (· < f.next) = r.handles ∧
+      f.next ≤ (f.createMissingPrefixes env node).1.next ∧
+      ∀ x q, r.pathOf x = some q → (path <+: q → q = path) → r'.pathOf x = some q := by
+  obtain ⟨r', h1, _, h3, h4, h5, h6, h7, h8, _, h10⟩ := Forest.fpxr_element hi env he hr hp
+  exact ⟨r', h1, h3, h4, h5, h6, h7, h8, h10⟩
+
+/-- On an element both models are their `create_missing_prefixes_for_element`. -/
+theorem C10_forest_repair_element_branch (f : Forest) (hi : f.Inv) (env : Env) (node : Nat)
+    (he : f.isElement node = true) (r : HTree) (hr : f.rootOf? node = some r) (path : Path)
+    (hp : r.pathOf node = some path) :
+    f.createMissingPrefixes env node = f.repairElementF env node ∧
+      createMissingPrefixes env r.erase path = repairElement env r.erase path :=
+  Forest.fpxr_cmp_element hi env he hr hp
+
+/-- DOCUMENT / FRAGMENT with at least one element child: the loop over the top-level elements.  The
+    forest model re-erases the root after every element, the tree model threads the tree; they agree
+    because a call changes nothing outside the strict subtree of its element.  Same conclusions as
+    for an element; paths are unchanged for every node at most one level below `node` (the document,
+    its ancestors, its children — the repaired elements themselves). -/
+theorem C10_forest_repair_refines_tree_document (f : Forest) (hi : f.Inv) (env : Env) (node : Nat)
+    (hd : f.isDocument node = true)
+    (hk : ∃ D k, f.get? node = some D ∧ k ∈ D.kids ∧ k.value.isElement = true)
+    (r : HTree) (hr : f.rootOf? node = some r) (path : Path) (hp : r.pathOf node = some path) :
+    ∃ r' : HTree,
+      (f.createMissingPrefixes env node).2.2 = .ok ∧
+      createMissingPrefixes env r.erase path = .ok ((f.createMissingPrefixes env node).2.1, r'.erase) ∧
+      (f.createMissingPrefixes env node).1.rootOf? node = some r' ∧
+      r'.pathOf node = some path ∧
+      (f.createMissingPrefixes env node).1.roots =
+        f.roots.map (fun y => if (y.pathOf node).isSome then r' else y) ∧
+      r'.handles.filter (· < f.next) = r.handles ∧
+      f.next ≤ (f.createMissingPrefixes env node).1.next ∧
+      ∀ x q, r.pathOf x = some q → q.length ≤ path.length + 1 → r'.pathOf x = some q := by
+  obtain ⟨r', h1, _, h3, h4, h5, h6, h7, h8, _, h10⟩ := Forest.fpxr_document hi env hd hk hr hp
+  exact ⟨r', h1, h3, h4, h5, h6, h7, h8, h10⟩
+
+/-- REFUSALS.  `NotElement` (neither element nor document) and `NoElementAtTopLevel` (a document
+    without element child): both models refuse with the same error, the forest and the interning
+    tables are returned as they were. -/
+theorem C10_forest_repair_refusals (f : Forest) (hi : f.Inv) (env : Env) (node : Nat)
+    (r : HTree) (hr : f.rootOf? node = some r) (path : Path) (hp : r.pathOf node = some path) :
+    (f.isElement node = false → f.isDocument node = false →
+      f.createMissingPrefixes env node = (f, env, .err .notElement) ∧
+      createMissingPrefixes env r.erase path = .err .notElement) ∧
+    (f.isDocument node = true → (∀ D, f.get? node = some D → ∀ k ∈ D.kids, k.value.isElement = false) →
+      f.createMissingPrefixes env node = (f, env, .err .noElementAtTopLevel) ∧
+      createMissingPrefixes env r.erase path = .err .noElementAtTopLevel) :=
+  ⟨fun he hd => Forest.fpxr_cmp_notElement hi env he hd hr hp,
+   fun hd hno => (Forest.fpxr_createMissingPrefixes_document hi env hd hr hp).1 hno⟩
+
+/-- The side condition of the tree-level C10 theorems (no element declares a prefix twice below the
+    node) holds of the erasure of every live subtree of a forest with the invariant. -/
+theorem C10_forest_uniqueBelow (f : Forest) (hi : f.Inv) (node : Nat) (S : HTree) (hg : f.get? node = some S) :
+    UniqueBelow S.erase := Forest.fpxr_uniqueBelow hi hg
+
+/-- COROLLARY (WRITABLE of C10, `C10_repair_writable`, for forest histories): after
+    `create_missing_prefixes` on a live element of a forest with the invariant, the serialiser's
+    `MissingPrefix` checks (`namesWritable`) pass on the erased root tree at the path of the node —
+    with no hypothesis on the tree beyond `Forest.Inv`. -/
+theorem C10_forest_repair_writable (f : Forest) (hi : f.Inv) (env : Env) (hok : Repair.EnvOk env) (node : Nat)
+    (he : f.isElement node = true) (r : HTree) (hr : f.rootOf? node = some r) (path : Path)
+    (hp : r.pathOf node = some path) :
+    ∃ r' : HTree, (f.createMissingPrefixes env node).1.rootOf? node = some r' ∧ r'.pathOf node = some path ∧
+      namesWritable (f.createMissingPrefixes env node).2.1 r'.erase path = some true :=
+  Forest.fpxr_element_writable hi env hok he hr hp
+
+/-- Non-vacuity on `pfxForest`: the hypotheses hold for the root element (path `[]`) and the inner
+    element (handle 2, path `[1]`: one namespace node before it); before the call the names are not
+    writable, the tree model answers `Ok`, afterwards they are writable; the inner element keeps its
+    handle and its path shifts by the one new namespace node (it is strictly below the repaired
+    element), the old handles keep their order. -/
+example : pfxForest.Inv ∧ Repair.EnvOk pfxEnv ∧ pfxForest.isElement 0 = true ∧ pfxForest.isElement 2 = true ∧
+    (pfxForest.rootOf? 2).map (·.handle) = some 0 ∧
+    (pfxForest.rootOf? 2).bind (·.pathOf 2) = some [1] ∧
+    (pfxForest.rootOf? 0).bind (·.pathOf 0) = some [] :=
+  ⟨(Forest.inv_iff _).mp (by decide), rfl, by decide, by decide, by decide, by decide, by decide⟩
+example : (pfxForest.rootOf? 0).bind (fun r => namesWritable pfxEnv r.erase []) = some false ∧
+    (pfxForest.rootOf? 0).map (fun r => match createMissingPrefixes pfxEnv r.erase [] with
+      | .ok _ => true
+      | _ => false) = some true ∧
+    ((pfxForest.createMissingPrefixes pfxEnv 0).1.rootOf? 0).bind
+      (fun r' => namesWritable (pfxForest.createMissingPrefixes pfxEnv 0).2.1 r'.erase []) = some true ∧
+    ((pfxForest.createMissingPrefixes pfxEnv 0).1.rootOf? 2).bind (·.pathOf 2) = some [2] ∧
+    ((pfxForest.createMissingPrefixes pfxEnv 0).1.rootOf? 0).map (·.handles) = some [0, 1, 4, 2, 3] ∧
+    ((pfxForest.createMissingPrefixes pfxEnv 2).1.rootOf? 2).bind (·.pathOf 2) = some [1] := by
+  decide +kernel
+
+/-- Non-vacuity of the document case: a fragment with two top-level elements, both needing a prefix;
+    the second element is found at the same path after the first was repaired. -/
+def pfxDocForest : Forest := { roots := [.node 0 .document [.node 1 (.element 1) [],
+  .node 2 (.element 1) [.node 3 (.namespace 2 2) []]], .node 4 (.text ['z']) []], next := 5 }
+example : pfxDocForest.Inv ∧ pfxDocForest.isDocument 0 = true ∧
+    (pfxDocForest.rootOf? 0).bind (·.pathOf 0) = some [] ∧
+    (∃ D k, pfxDocForest.get? 0 = some D ∧ k ∈ D.kids ∧ k.value.isElement = true) :=
+  ⟨(Forest.inv_iff _).mp (by decide), by decide, by decide,
+   ⟨_, .node 1 (.element 1) [], rfl, by simp [HTree.kids], rfl⟩⟩
+example : (pfxDocForest.createMissingPrefixes pfxEnv 0).2.2 = .ok ∧
+    ((pfxDocForest.createMissingPrefixes pfxEnv 0).1.rootOf? 0).map (·.handles) = some [0, 1, 5, 2, 3, 6] ∧
+    ((pfxDocForest.createMissingPrefixes pfxEnv 0).1.rootOf? 2).bind (·.pathOf 2) = some [1] ∧
+    (pfxDocForest.createMissingPrefixes pfxEnv 0).1.roots.map (·.handle) = [0, 4] ∧
+    (pfxDocForest.createMissingPrefixes pfxEnv 4).2.2 = .err .notElement := by
+  decide +kernel
 
 /-! ### The xml:id index: `xml_id_node` never hands out a removed node
 
